@@ -803,6 +803,14 @@ namespace bloch::compiler {
         inferDiamondTypeArguments(initializer, targetInfo, line, column);
         TypeInfo initInfo = inferTypeInfo(initializer);
 
+        if (auto prim = dynamic_cast<PrimitiveType*>(declaredType)) {
+            // A qubit declaration allocates its own simulator qubit; initialising it from
+            // another qubit would alias that qubit and leak the fresh one.
+            if (prim->name == "qubit") {
+                throw BlochError(ErrorCategory::Semantic, line, column,
+                                 "qubit cannot be initialised");
+            }
+        }
         if (auto arr = dynamic_cast<ArrayType*>(declaredType)) {
             if (auto elem = dynamic_cast<PrimitiveType*>(arr->elementType.get())) {
                 if (elem->name == "qubit") {
